@@ -62,7 +62,8 @@ class C10(e1.E1Check):
     id = "C10"
     types_quick = [rec(("x", I), ("y", var(I))), var(rec(("x", I), ("y", F))), tup(I, var(F)), opt(rec(("x", I))),
                    var(opt(rec(("x", I), ("y", var(I))))), rec(("x", rec(("a", I), ("b", var(I)))), ("y", I)), rec(),
-                   reg(2, rec(("x", I))), var(var(rec(("x", I), ("y", S)))), rec(("x", opt(I)), ("y", var(I))), var(tup(I, I))]
+                   reg(2, rec(("x", I))), var(var(rec(("x", I), ("y", S)))), rec(("x", opt(I)), ("y", var(I))), var(tup(I, I)),
+                   reg(0, rec(("x", I), ("y", F))), var(reg(0, rec(("x", I), ("y", F)))), reg(1, rec(("x", I), ("y", F)))]
     types_thorough = types_quick + [rec(("x", var(I)), ("y", var(var(F)))), var(rec(("x", opt(I)), ("y", var(I)))),
                                     opt(var(rec(("x", I)))), var(reg(2, rec(("x", I), ("y", I))))]
     bounds_quick = dict(N=3, M=2, K=6, enc_k=1, state_cap=40, parts=2)
